@@ -69,6 +69,16 @@ def r61(ctx, rep):
                     rep.violated('R6.1', init, 'self.%s = %s' % (side, first[:50]),
                                  'the %s table is not squared up with stack() before the merge: short rows raise or are '
                                  'compared with a shifted key' % side, stores[0] if stores else init.node)
+        if ci.name in ('JoinView', 'LookupJoinView'):
+            for c in [n for n in own_nodes(init.node) if isinstance(n, ast.Call) and norm(n.func) == 'sort']:
+                a0 = norm(c.args[0]) if c.args else ''
+                if a0 in ('self.left', 'self.right') or a0.startswith('stack('):
+                    rep.held('R6.1', init, 'sort(%s, ...)' % a0[:30], 'the squared-up table is what gets sorted', c)
+                else:
+                    rep.violated('R6.1', init, 'sort(%s, ...)' % a0[:30],
+                                 'the raw input `%s` is sorted and only squared up afterwards: a row too short to hold the '
+                                 'key sorts under None and is then padded with `missing`, so the merge receives an '
+                                 'out-of-order stream' % a0, c)
     for o in sub.obligations:
         rep.add('R6.1', (o.module, o.qualname), o.construct, o.status, o.message, o.lineno, o.detail)
 
@@ -124,7 +134,8 @@ def _ev(e, env):
 
 def r62(ctx, rep):
     fn = ctx.project.need_fn('petl.transform.joins:keys_from_args')
-    for kv, lv, rv in itertools.product((None, 'K'), (None, 'L'), (None, 'R')):
+    # given values include falsy ones (field index 0, empty tuple): only `is None` means omitted
+    for kv, lv, rv in itertools.product((None, 'K', 0), (None, 'L', 0), (None, 'R', 0)):
         env = {'key': kv, 'lkey': lv, 'rkey': rv, 'left': 'left', 'right': 'right'}
         outcome = None
 
@@ -156,7 +167,7 @@ def r62(ctx, rep):
                 else:
                     raise KeyError(type(s).__name__)
             return False
-        case = 'key=%s lkey=%s rkey=%s' % tuple('given' if x else 'None' for x in (kv, lv, rv))
+        case = 'key=%s lkey=%s rkey=%s' % tuple(('None' if x is None else ('given(falsy)' if x == 0 else 'given')) for x in (kv, lv, rv))
         try:
             run_block(fn.node.body)
         except KeyError as e:
@@ -165,9 +176,9 @@ def r62(ctx, rep):
         if kv is None and lv is None and rv is None:
             want = ('return', ('NATURAL', 'NATURAL'))
         elif kv is not None and lv is None and rv is None:
-            want = ('return', ('K', 'K'))
+            want = ('return', (kv, kv))
         elif kv is None and lv is not None and rv is not None:
-            want = ('return', ('L', 'R'))
+            want = ('return', (lv, rv))
         else:
             want = ('raise', 'ArgumentError')
         if outcome == want:
